@@ -122,7 +122,12 @@ Theorem C19_relabel_isomorphism : forall la s, Inv s ->
   (forall e, In e (ekeys s) -> seteq (mems t (emap e)) (map nmap (mems s e))) /\
   (forall x y, In x (nkeys s) -> In y (nkeys s) -> nmap x = nmap y -> x = y) /\
   (forall x y, In x (ekeys s) -> In y (ekeys s) -> emap x = emap y -> x = y) /\
-  h_net t = h_net s.
+  h_net t = h_net s /\
+  (* ... that records the old labels: the attributes are carried over and the label attribute, set last, holds the old id *)
+  (forall n, In n (nkeys s) ->
+     get (nmap n) (h_nattr t) = Some (aupdate (aupdate [] (aupdate [] (geta n (h_nattr s)))) [(la, aval_of_lbl n)])) /\
+  (forall e, In e (ekeys s) ->
+     get (emap e) (h_eattr t) = Some (aupdate (aupdate [] (aupdate [] (geta e (h_eattr s)))) [(la, aval_of_lbl e)])).
 Proof. exact relabel_spec. Qed.
 Print Assumptions C19_relabel_isomorphism.
 
